@@ -6,7 +6,7 @@ From VibeSQL Require Import Store.Table Store.UserIndex Store.Constraints Store.
 Import ListNotations.
 
 (* ------------------------------------------------------------------------------------ *)
-(** * Column-order extraction = declared order, for keys listed in column order *)
+(** * Small list facts *)
 
 Lemma existsb_exists_false {A} (f : A -> bool) l : existsb f l = false <-> (forall x, In x l -> f x = false).
 Proof.
@@ -17,53 +17,8 @@ Proof.
     + intros H; split; [apply H; left; reflexivity | intros x Hx; apply H; right; exact Hx].
 Qed.
 
-Lemma filter_none {A} (f : A -> bool) l : (forall x, In x l -> f x = false) -> filter f l = [].
-Proof.
-  induction l as [|y l IH]; intros H; cbn; [reflexivity|].
-  rewrite (H y (or_introl eq_refl)). apply IH. intros x Hx; apply H; right; exact Hx.
-Qed.
-
-Lemma strictly_inc_lb c cs : strictly_inc (c :: cs) = true -> forall x, In x cs -> c < x.
-Proof.
-  revert c; induction cs as [|d cs IH]; intros c H x Hx; [destruct Hx|].
-  cbn in H. apply andb_true_iff in H. destruct H as [Hlt Hs]. apply Nat.ltb_lt in Hlt.
-  destruct Hx as [->|Hx]; [exact Hlt|]. specialize (IH d Hs x Hx). lia.
-Qed.
-
-Lemma strictly_inc_tail c cs : strictly_inc (c :: cs) = true -> strictly_inc cs = true.
-Proof. destruct cs as [|d cs]; cbn; [reflexivity|]. intros H; apply andb_true_iff in H; apply H. Qed.
-
-Lemma col_order_seq n : forall a cols,
-  strictly_inc cols = true -> (forall c, In c cols -> a <= c < a + n) ->
-  filter (fun c => existsb (Nat.eqb c) cols) (seq a n) = cols.
-Proof.
-  induction n as [|n IH]; intros a cols Hs Hb; cbn [seq filter].
-  - destruct cols as [|c cs]; [reflexivity|]. specialize (Hb c (or_introl eq_refl)). lia.
-  - destruct cols as [|c cs].
-    + cbn. apply filter_none. intros x _. reflexivity.
-    + pose proof (strictly_inc_lb c cs Hs) as Hlb.
-      destruct (Nat.eq_dec c a) as [->|Hne].
-      * cbn [existsb]. rewrite Nat.eqb_refl. cbn [orb]. f_equal.
-        transitivity (filter (fun c => existsb (Nat.eqb c) cs) (seq (S a) n)).
-        -- apply filter_ext_in. intros x Hx. apply in_seq in Hx. cbn [existsb].
-           replace (x =? a) with false by (symmetry; apply Nat.eqb_neq; lia). reflexivity.
-        -- apply IH; [eapply strictly_inc_tail; eauto|].
-           intros x Hx. specialize (Hlb x Hx). specialize (Hb x (or_intror Hx)). lia.
-      * assert (Ha : existsb (Nat.eqb a) (c :: cs) = false).
-        { apply not_true_is_false. intros H. apply existsb_exists in H. destruct H as [x [Hx He]].
-          apply Nat.eqb_eq in He; subst x. destruct Hx as [->|Hx]; [congruence|].
-          specialize (Hlb a Hx). specialize (Hb c (or_introl eq_refl)). lia. }
-        rewrite Ha. apply IH; [exact Hs|].
-        intros x Hx. pose proof (Hb x Hx) as Hbx. pose proof (Hb c (or_introl eq_refl)) as Hbc.
-        destruct Hx as [->|Hx]; [lia|]. specialize (Hlb x Hx). lia.
-Qed.
-
-Lemma rv_key_in_order s cols r : key_in_col_order s cols = true -> rv_key s cols r = proj cols r.
-Proof.
-  unfold key_in_col_order, rv_key, cols_in_column_order. intros H. apply andb_true_iff in H.
-  destruct H as [Hs Hb]. rewrite col_order_seq; [reflexivity | exact Hs|].
-  intros c Hc. rewrite forallb_forall in Hb. specialize (Hb c Hc). apply Nat.ltb_lt in Hb. lia.
-Qed.
+Lemma rv_key_in_order s cols r : rv_key s cols r = proj cols r.
+Proof. reflexivity. Qed.
 
 (* ------------------------------------------------------------------------------------ *)
 (** * Table::insert (sequence) *)
@@ -303,17 +258,17 @@ Proof.
 Qed.
 
 Lemma rv_all_pk t cols m :
-  s_pk (t_sch t) = Some cols -> t_pkidx t = Some m -> key_in_col_order (t_sch t) cols = true ->
+  s_pk (t_sch t) = Some cols -> t_pkidx t = Some m ->
   forall rows bpk buq,
   rv_validate_all t bpk buq rows = true ->
   NoDup bpk -> (forall k, In k bpk -> am_mem k m = false) ->
   NoDup (bpk ++ somes (pk_kf cols) rows) /\ (forall k, In k (somes (pk_kf cols) rows) -> am_mem k m = false).
 Proof.
-  intros Hpk Hidx Hord. induction rows as [|r rows IH]; intros bpk buq Hv Hnd Hm.
+  intros Hpk Hidx. induction rows as [|r rows IH]; intros bpk buq Hv Hnd Hm.
   - cbn. rewrite app_nil_r. split; [exact Hnd | intros k []].
   - cbn [rv_validate_all] in Hv. destruct (rv_validate t bpk buq r) as [v|] eqn:Ev; [|discriminate].
     destruct (rv_validate_facts _ _ _ _ _ Ev) as [_ [Hvp [_ [Hd _]]]].
-    rewrite Hpk in Hvp. rewrite Hvp in Hd. rewrite rv_key_in_order in * by assumption.
+    rewrite Hpk in Hvp. rewrite Hvp in Hd. rewrite rv_key_in_order in *.
     rewrite Hidx in Hd. apply dup_in_false in Hd. destruct Hd as [Hnb Hnm].
     unfold batch_pk_push in Hv. rewrite Hvp in Hv.
     specialize (IH (bpk ++ [proj cols r]) _ Hv).
@@ -328,18 +283,17 @@ Qed.
 
 Lemma rv_all_uq t j cols m :
   nth_error (s_uniqs (t_sch t)) j = Some cols -> nth_error (t_uqidx t) j = Some m ->
-  key_in_col_order (t_sch t) cols = true ->
   forall rows bpk buq, length buq = length (s_uniqs (t_sch t)) ->
   rv_validate_all t bpk buq rows = true ->
   NoDup (nth j buq []) -> (forall k, In k (nth j buq []) -> am_mem k m = false) ->
   NoDup (nth j buq [] ++ somes (uq_kf cols) rows) /\ (forall k, In k (somes (uq_kf cols) rows) -> am_mem k m = false).
 Proof.
-  intros Hc Hidx Hord. induction rows as [|r rows IH]; intros bpk buq Hlen Hv Hnd Hm.
+  intros Hc Hidx. induction rows as [|r rows IH]; intros bpk buq Hlen Hv Hnd Hm.
   - cbn. rewrite app_nil_r. split; [exact Hnd | intros k []].
   - cbn [rv_validate_all] in Hv. destruct (rv_validate t bpk buq r) as [v|] eqn:Ev; [|discriminate].
     destruct (rv_validate_facts _ _ _ _ _ Ev) as [_ [_ [Hvu [_ [Hu _]]]]].
     assert (Hkj : nth_error (v_uq v) j = Some (uq_kf cols r)).
-    { rewrite Hvu. erewrite map_nth_error by exact Hc. rewrite rv_key_in_order by assumption. reflexivity. }
+    { rewrite Hvu. erewrite map_nth_error by exact Hc. rewrite rv_key_in_order. reflexivity. }
     assert (Hlen' : length buq = length (v_uq v)) by (rewrite Hvu, map_length; exact Hlen).
     specialize (IH (batch_pk_push bpk v) (batch_uq_push buq (v_uq v))).
     rewrite batch_uq_push_length in IH. specialize (IH Hlen Hv).
@@ -424,14 +378,13 @@ Proof.
     [inversion Hd; subst; auto|].
   apply negb_false_iff in Ev.
   unfold kc_insert_values in Hk. apply orb_false_iff in Hk. destruct Hk as [Hk Hk3].
-  apply orb_false_iff in Hk. destruct Hk as [Hk1 Hk2]. apply negb_false_iff in Hk1.
-  unfold keys_in_col_order in Hk1. apply andb_true_iff in Hk1. destruct Hk1 as [Hopk Houq].
+  rename Hk into Hk2.
   pose proof HI as [Hwf [[Hnn [Hpk [Huq [Hck Hui]]]] [[Hhp Hhu] Hu]]].
   (* the facts the batch lemma needs *)
   assert (F1 : forall cols, s_pk (t_sch t) = Some cols -> NoDup (somes (pk_kf cols) (t_rows t ++ rows))).
-  { intros cols Ec. unfold pk_rebuild in Hhp. rewrite Ec in Hhp, Hopk.
+  { intros cols Ec. unfold pk_rebuild in Hhp. rewrite Ec in Hhp.
     destruct (t_pkidx t) as [m|] eqn:Em; cbn in Hhp; [|contradiction].
-    destruct (rv_all_pk t cols m Ec Em Hopk rows [] _ Ev) as [N1 N2]; [constructor | intros k [] |].
+    destruct (rv_all_pk t cols m Ec Em rows [] _ Ev) as [N1 N2]; [constructor | intros k [] |].
     cbn in N1. eapply fresh_NoDup; eauto. }
   assert (F2 : Forall (fun cols => NoDup (somes (uq_kf cols) (t_rows t ++ rows))) (s_uniqs (t_sch t))).
   { apply Forall_forall. intros cols Hin. destruct (In_nth_error _ _ Hin) as [j Hj].
@@ -440,8 +393,7 @@ Proof.
                   = Some (h_rebuild (uq_kf cols) (t_rows t)))
       by (exact (map_nth_error (fun c => h_rebuild (uq_kf c) (t_rows t)) j _ Hj)).
     destruct (Forall2_nth_error_r _ _ _ _ _ Hhu Hj') as [m [Em He]].
-    rewrite forallb_forall in Houq.
-    destruct (rv_all_uq t j cols m Hj Em (Houq cols Hin) rows [] (map (fun _ => []) (s_uniqs (t_sch t)))) as [N1 N2].
+    destruct (rv_all_uq t j cols m Hj Em rows [] (map (fun _ => []) (s_uniqs (t_sch t)))) as [N1 N2].
     - apply map_length.
     - exact Ev.
     - replace (nth j (map (fun _ => []) (s_uniqs (t_sch t))) []) with (@nil key); [constructor|].
@@ -494,15 +446,14 @@ Proof.
 Qed.
 
 Lemma bulk_loop_TInv src : forall t seen_pk seen_uq cnt ins t' res ins',
-  TInv t -> bulk_shortcut_hit t seen_pk seen_uq src = false ->
+  TInv t ->
   unenforced_check_hit (t_sch t) src = false ->
   bulk_loop t seen_pk seen_uq src cnt ins = (t', res, ins') -> TInv t' /\ t_sch t' = t_sch t.
 Proof.
-  induction src as [|r src IH]; intros t seen_pk seen_uq cnt ins t' res ins' HI Hhit Hchk Hl.
+  induction src as [|r src IH]; intros t seen_pk seen_uq cnt ins t' res ins' HI Hchk Hl.
   - cbn in Hl. inversion Hl; subst; auto.
-  - cbn [bulk_loop] in Hl. cbn [bulk_shortcut_hit] in Hhit.
+  - cbn [bulk_loop] in Hl.
     destruct (negb (bulk_pk_ok t seen_pk r)) eqn:Epk; [inversion Hl; subst; auto|].
-    apply orb_false_iff in Hhit. destruct Hhit as [Hh1 Hh2].
     destruct (negb (bulk_unique_ok (s_uniqs (t_sch t)) seen_uq (t_uqidx t) r)) eqn:Euq; [inversion Hl; subst; auto|].
     destruct (negb (checks_ok (s_checks_enf (t_sch t)) r)) eqn:Eck; [inversion Hl; subst; auto|].
     destruct (db_insert_row t r) as [t1 ok] eqn:Ei.
@@ -518,9 +469,9 @@ Proof.
       - intros cols Ec. unfold pk_rebuild in Hhp. rewrite Ec in Hhp.
         destruct (t_pkidx t) as [m|] eqn:Em; cbn in Hhp; [|contradiction].
         eapply fresh_NoDup; [exact Hhp | apply Hpk; exact Ec | apply NoDup_somes_short; cbn; lia |].
-        cbn. intros k [<-|[]]. unfold bulk_pk_ok in Epk. rewrite Ec in Epk, Hh1. rewrite ?Em in Epk.
-        destruct (key_mem (proj cols r) seen_pk); [discriminate|]. cbn in Hh1.
-        destruct (tr_mode (t_trk t)); cbn in Hh1; [exact Hh1 | apply negb_true_iff in Epk; exact Epk].
+        cbn. intros k [<-|[]]. unfold bulk_pk_ok in Epk. rewrite Ec in Epk. rewrite ?Em in Epk.
+        destruct (key_mem (proj cols r) seen_pk); [discriminate|].
+        apply negb_true_iff in Epk; exact Epk.
       - apply Forall_forall. intros cols Hin. destruct (In_nth_error _ _ Hin) as [j Hj].
         unfold uq_rebuild in Hhu.
         assert (Hj' : nth_error (map (fun cols => h_rebuild (uq_kf cols) (t_rows t)) (s_uniqs (t_sch t))) j
@@ -537,7 +488,7 @@ Proof.
       - constructor; [exact Hc1 | constructor]. }
     destruct HT as [HT1 [HT2 _]].
     assert (Hc2' : unenforced_check_hit (t_sch t1) src = false) by (rewrite HT2; exact Hc2).
-    destruct (IH _ _ _ _ _ _ _ _ HT1 Hh2 Hc2' Hl) as [H1 H2].
+    destruct (IH _ _ _ _ _ _ _ _ HT1 Hc2' Hl) as [H1 H2].
     split; [exact H1 | congruence].
 Qed.
 
@@ -547,7 +498,7 @@ Lemma do_insert_select_TInv dst same src_sch src_rows sel t' res ins :
 Proof.
   intros HI Hk Hd. unfold do_insert_select in Hd. unfold kc_insert_select in Hk.
   destruct (negb same && bulk_compatible (t_sch dst) src_sch).
-  - apply orb_false_iff in Hk. destruct Hk as [Hk1 Hk2]. eapply bulk_loop_TInv; eauto.
+  - eapply bulk_loop_TInv; eauto.
   - destruct (negb (s_ncols src_sch =? s_ncols (t_sch dst))); [inversion Hd; subst; auto|].
     eapply do_insert_values_TInv; eauto.
 Qed.
